@@ -33,10 +33,14 @@ def _class(f, v, prefix):
     for n in block_nodes(f, blocks):
         if n["k"] == "CallExpr" and n.get("callee"):
             c = n["callee"]
-            calls.append(norm(c))
-            # a mode-neutral static helper of this unit (one level): what it calls counts as called here, so a helper shared
-            # by the accept and the reject side cannot hide a call into the wrong side
-            if prog is not None and not c.startswith(("accept_", "reject_")):
+            other = "reject_" if prefix == "accept_" else "accept_"
+            one_sided = c.startswith(prefix) and (other + c[len(prefix):]) not in f.unit.funcs and c in f.unit.funcs
+            if not one_sided:
+                calls.append(norm(c))
+            # a static helper of this unit that has no counterpart on the other side - mode-neutral, or extracted on one
+            # side only (one level): what it calls counts as called here, so a shared helper cannot hide a call into the
+            # wrong side and a one-sided extraction does not look like a different effect
+            if prog is not None and (one_sided or not c.startswith(("accept_", "reject_"))):
                 h = f.unit.funcs.get(c)
                 if h is not None and h is not f:
                     for hc in h.calls():
